@@ -1,10 +1,10 @@
 SPECIFICATION Spec
 CONSTANTS
-  Part = "rewind"
-  Seeds = {"s1", "s2", "s3"}
+  Parts = {"rewind"}
+  Seeds = {"s1", "s2"}
   Comps = {"c0", "c1", "h0"}
   HardComps = {"h0"}
-  Amts = {"a0", "a1", "amax"}
+  Amts = {"a0", "amax"}
   MaxDepth = 4
   VKMaxDepth = 1
   MaxOuts = 1
@@ -25,4 +25,4 @@ CONSTANTS
   ShapeStride = 1
   PairStride = 1
   WalPicks = 1
-INVARIANTS TypeOK KeychainMatrixOK ViewMatrixOK NeverGarbage OtherSeedNothing OwnFormatOnly ProofsVerify SiblingsOK SignOK ExtraDataBinds PaddingIgnored EmitCraft
+INVARIANTS TypeOK RewindMatrixAll ProofsVerify SiblingsOK SignOK ExtraDataBinds PaddingIgnored EmitCraft
